@@ -1,0 +1,27 @@
+//go:build verif
+
+// SPDX-License-Identifier: Apache-2.0
+
+package proxy
+
+import "github.com/luraproject/lura/v2/config"
+
+// Add-only exports of unexported helpers, for differential checks. Only built with
+// the "verif" tag.
+
+// VerifAccumulator wraps the incremental merge accumulator used by both mergers.
+type VerifAccumulator struct{ acc *incrementalMergeAccumulator }
+
+func VerifNewAccumulator(total int) VerifAccumulator {
+	return VerifAccumulator{newIncrementalMergeAccumulator(total, combineData)}
+}
+
+func (v VerifAccumulator) Merge(r *Response, err error) { v.acc.Merge(r, err) }
+
+func (v VerifAccumulator) Result() (*Response, error) { return v.acc.Result() }
+
+func VerifCombineData(total int, parts []*Response) *Response { return combineData(total, parts) }
+
+func VerifHasUnsafeBackends(cfg *config.EndpointConfig) bool { return hasUnsafeBackends(cfg) }
+
+var VerifErrNullResult = errNullResult
